@@ -29,14 +29,14 @@ class Prop(BaseProp):
     HEADLINE = ["entries_expected", "entries_matched", "modules_with_comments", "documented_api_checked"]
 
     def n_cases(self, tier):
-        return 800 if tier == "quick" else 12000 + 2 * len(KINDS14) ** 2 * 2
+        return 5000 if tier == "quick" else 60000 + 2 * len(KINDS14) ** 2 * 2
 
     def setup_worker(self):
         runner.cminx()
         self.settings = None
 
     def build(self, idx, rng):
-        nrand = 800 if self.tier == "quick" else 12000
+        nrand = 5000 if self.tier == "quick" else 60000
         if idx < nrand:
             b = Builder(rng, p_doc=0.5, max_depth=3)
             mod = b.module()
